@@ -208,8 +208,17 @@ def check_copy(sp, node_idx, side, edit, target_idx):
         raise Violation("fresh-copy-compares-unequal", "is_equal(original, copy) is False right after copy()", case)
     tl = treegen.nodes(c) if side else treegen.nodes(sub)
     tgt = tl[target_idx % len(tl)]
+    edited_root = c if side else sub
+    before = snapshot.snap(edited_root)
     if not apply_edit(tgt, edit):
         return None
+    if snapshot.snap(edited_root) == before:
+        return None     # the edit changed nothing (binding / attribute already there)
+    # one tree was edited, the other was not: they have to compare unequal now - whatever the two trees look like (an
+    # edit that leaks into the other tree through shared state leaves them "equal", which is exactly what must not be)
+    for a, b, what in ((sub, c, "is_equal(original, copy)"), (c, sub, "is_equal(copy, original)")):
+        if call_eq(a, b, case, what):
+            raise Violation("copy-still-equal-after-edit", f"{what} is True after {edit} on the {'copy' if side else 'original'}", case)
     exp = compare(sub, c, case, "copy-after-" + edit)
     return exp, (target_idx % len(tl)) != 0
 
